@@ -176,6 +176,21 @@ CLAIMS = {
     note="native_decide: the exploration is evaluated by compiled code, not by the kernel. Shuffle stories are "
          "compared modulo the shuffle (line text blanked).",
     technique="Lean 4 per-pair theorems regenerated from the compiler's output (native_decide) + differential exploration on the real runtime"),
+ "C06": dict(
+    category="proof",
+    text=("Proved: the executable reference checker of the model is sound and complete for one object (refOk <-> the "
+          "path resolves exactly to existing content) and sound for whole stories (storyOk = true implies every divert, "
+          "choice target, read-count reference and divert-target value reachable from the root resolves without "
+          "approximation); the executable tree well-formedness check is sound for the declarative WFTree of C19. "
+          "NOT proved (no model of the compiler; partial): that the compiler terminates without panic on every text "
+          "and that its output always passes the checker — decided by the oracle: corpus sources, generated "
+          "programs, byte/character/token mutations, splices and token soup are compiled in separate processes under "
+          "a time limit; no panic / hang, error lines exist, same bytes twice, output loads in the runtime, every "
+          "reference row of the runtime's audit hook resolves exactly; tie: the checker's verdict equals the audit "
+          "hook's on every compiled document."),
+    design_ref="DESIGN.md section 5 C06",
+    note="Inputs are valid Unicode text. The compiler itself is exercised, not modelled.",
+    technique="Lean 4 soundness theorems for the output checker (partial) + differential tie with the audit hook + mutation oracle on the compiler"),
 }
 
 REASONS_PENDING = "check not built yet in this revision of /verif (see DESIGN.md section 9.1 for the order of work)"
